@@ -69,6 +69,8 @@ class Ctx:
         self.cont = False
         self.lincyc = False
         self.draw_fams = {}
+        self.uses_counter = False  # the counter variable k is used (initialised to 0)
+        self.prefer = set()  # condition variables of the enclosing if (preferred assignment targets in its branches)
         self.atoms = []  # atoms generated so far (for verbatim repetition)
         self.banned = set()  # variables that must not be assigned here (condition variables of an enclosing nested if)
 
@@ -351,8 +353,14 @@ def simple_stmt(c):
     if len(fin_ok) + len(c.num) >= 2 and not c.banned:
         kinds += ["simult"]
     if not kinds:
-        return ["assign", "k", ["expr", L.num(0)]]
+        c.uses_counter = True
+        return ["assign", "k", ["expr", ["add", L.var("k"), L.num(1)]]]
     kind = c.pick(kinds)
+    pref = [f for f in fin_ok if f in c.prefer]
+    if pref and c.b(0.45):
+        # inside a branch: reassign a variable that one of the if's conditions tests (old-value copies, branch negations)
+        f = c.pick(pref)
+        return ["assign", f, finite_rhs(c, f)]
     if kind == "fin":
         f = c.pick(fin_ok)
         return ["assign", f, finite_rhs(c, f)]
@@ -376,7 +384,7 @@ def simple_stmt(c):
 
 def statement(c, depth):
     if c.fin and depth < 2 and c.b(c.k["ifs"] * (0.4 if depth == 0 else 0.2)):
-        nb = c.pick([1, 1, 1, 2, 2, 3])
+        nb = c.pick([1, 1, 2, 2, 3])
         conds = [condition(c) for _ in range(nb)]
         old_banned = c.banned
         # a nested if (or any if below a guard-free top level) that reassigns its own condition variables is
@@ -387,15 +395,62 @@ def statement(c, depth):
             for cd in conds:
                 L.cond_vars(cd, cv)
             c.banned = c.banned | cv
-        branches = [[cd, block(c, depth + 1, c.integer(1, 2))] for cd in conds]
-        els = block(c, depth + 1, c.integer(1, 2)) if c.b(0.45) else None
+        old_prefer = c.prefer
+        cvs = set()
+        for cd in conds:
+            L.cond_vars(cd, cvs)
+        c.prefer = cvs - c.banned
+        branches = [[cd, block(c, depth + 1, c.pick([1, 2, 2, 3]))] for cd in conds]
+        els = block(c, depth + 1, c.pick([1, 2, 2, 3])) if c.b(0.45) else None
         c.banned = old_banned
+        c.prefer = old_prefer
         return ["if", branches, els]
     return simple_stmt(c)
 
 
 def block(c, depth, k):
-    return [statement(c, depth) for _ in range(k)]
+    out = [statement(c, depth) for _ in range(k)]
+    if depth == 0 and c.fin and c.b(0.2):
+        # the same (non-reduced) atom tested twice with a reassignment of one of its variables in between
+        import copy
+
+        a = _compound_atom(c)
+        vs = sorted(L.cond_vars(a))
+        v = c.pick(vs)
+        old = c.banned
+        c.banned = c.banned | {v}
+        count1 = ["assign", "k", ["expr", ["add", L.var("k"), L.num(1)]]]
+        count2 = ["assign", "k", ["expr", ["add", L.var("k"), L.num(2)]]]
+        c.uses_counter = True
+        first = ["if", [[copy.deepcopy(a), [count1 if c.b(0.6) else simple_stmt(c)]]], None]
+        second = ["if", [[copy.deepcopy(a), [count2 if c.b(0.6) else simple_stmt(c)]]], [simple_stmt(c)] if c.b(0.3) else None]
+        c.banned = old
+        out += [first, ["assign", v, finite_rhs(c, v, allow_self=False)], second]
+    if depth == 0 and c.fin and c.b(0.15):
+        # a later branch reassigns a variable that only an earlier branch's condition tests, and goes on afterwards
+        v = c.pick(list(c.fin))
+        D = c.fin[v]
+        a1 = ["cmp", L.var(v), c.pick(["==", "==", "<", ">"]), L.num(c.pick([x for x in D if x.denominator == 1] or [F(0)]))]
+        c.uses_counter = True
+        cnt = lambda i: ["assign", "k", ["expr", ["add", L.var("k"), L.num(i)]]]
+        later = [["assign", v, finite_rhs(c, v, allow_self=False)], cnt(1)]
+        others = [w for w in c.fin if w != v]
+        if others and c.b(0.5):
+            w = c.pick(others)
+            a2 = ["cmp", L.var(w), "==", L.num(c.pick([x for x in c.fin[w] if x.denominator == 1] or [F(0)]))]
+            out.append(["if", [[a1, [cnt(2)]], [a2, later]], [cnt(3)] if c.b(0.5) else None])
+        else:
+            out.append(["if", [[a1, [cnt(2)]]], later])
+    return out
+
+
+def _compound_atom(c):
+    f = c.pick(list(c.fin))
+    cop = c.pick(["==", ">", "<", ">=", "<="])
+    if len(c.fin) >= 2 and c.b(0.6):
+        g = c.pick([g for g in c.fin if g != f])
+        return ["cmp", ["add", L.var(f), L.var(g)], cop, L.num(c.pick([0, 1, 2]))]
+    return ["cmp", ["mul", L.num(2), L.var(f)], cop, L.num(c.pick([0, 1, 2]))]
 
 
 def init_block(c, uninit_ok):
@@ -497,6 +552,8 @@ def programs(draw, profile="discrete", uninit_ok=True, min_body=1, max_body=4):
     for u in c.drw:
         if knobs.get("inclass") or c.b(0.8):
             init.append(["assign", u, ["expr", L.num(0)]])
+    if c.uses_counter:
+        init.append(["assign", "k", ["expr", L.num(0)]])
     if shadow is not None:
         iv = [st_ for st_ in init if st_[0] == "assign" and st_[1] == shadow and st_[2][0] == "expr" and st_[2][1][0] == "num"]
         init.append(["assign", "h", ["expr", iv[0][2][1] if iv else L.num(0)]])
